@@ -578,3 +578,35 @@ def run(chk):
     _monotone_rule(chk, prog, G)
     _table_rule(chk, prog, guarded_bits)
     _assertany_rule(chk, prog)
+    _applyall_rule(chk, prog)
+
+
+def _applyall_rule(chk, prog):
+    """janet_sandbox is the one place that disables capabilities.  A call that returns normally must have ORed every
+    requested bit into janet_vm.sandbox_flags: an early return (say, because SOME of the bits were already set) makes
+    (sandbox :fs-write :net-connect) a silent no-op for the bits that were not, and the caller believes they are off."""
+    rule = "C18-APPLYALL"
+    chk.rule(rule, "every returning path of janet_sandbox has ORed the requested flags into janet_vm.sandbox_flags")
+    fn = prog.need_func("janet_sandbox", "vm.c")
+    chk.analysed(fn)
+
+    def transfer(st, x):
+        if x.k == "asg" and x.op == "|=" and is_mem(x.kids[0], "sandbox_flags", "JanetVM") and \
+                any(y.k == "ref" and y.name == fn.params[0]["n"] for y in x.kids[1].walk()):
+            return st | {"applied"}
+        return st
+    IN, OUT, T = flow.forward_paths(fn, frozenset(), transfer)
+    n = 0
+    for b, kind in flow.exits(fn):
+        if kind != "return" or b.id not in OUT:
+            continue
+        n += 1
+        chk.instance(rule)
+        if all("applied" in st for st in OUT[b.id]):
+            chk.ok(rule, "janet_sandbox: flags applied before this return")
+        else:
+            where = b.term or (b.elems[-1] if b.elems else None)
+            chk.violation(rule, "vm.c", "janet_sandbox", "return-without-apply", where.loc if where is not None else fn.loc,
+                          "janet_sandbox can return without `sandbox_flags |= flags`: the call succeeds but some requested capabilities "
+                          "stay enabled")
+    chk.floor(rule, 1, n)
